@@ -1306,8 +1306,22 @@ def rejection_checks(ctx, rng, ref, x, meta, case):
                 must_reject("block-outside-meta", lambda: z5.to_dict(level=0, meta=msmall))
     else:
         if ref.trans != tuple(range(ref.ndim_n)):
-            must_reject("lazy-transpose-vs-meta", lambda: x.consume_transpose().transpose(tuple(range(x.ndim))[::-1]).to_dict(level=0, meta=meta)
-                        if x.get_legs() != x.transpose(tuple(range(x.ndim))[::-1]).get_legs() else (_ for _ in ()).throw(yastn.YastnError("symmetric")))
+            def fits(y):
+                """every block of y (logical order) is a block of ref with the same shape, same signature and charge: then y IS compatible with
+                meta (e.g. legs that are exchanged by the permutation hold the same sectors) and accepting it is right"""
+                try:
+                    yc, rc = y.consume_transpose(), ref.consume_transpose()
+                    if yc.struct.s != rc.struct.s or yc.struct.n != rc.struct.n or yc.mfs != rc.mfs or yc.hfs != rc.hfs:
+                        return False
+                    rmap = dict(zip(rc.struct.t, rc.struct.D))
+                    return all(t in rmap and rmap[t] == D for t, D in zip(yc.struct.t, yc.struct.D))
+                except Exception:  # noqa: BLE001
+                    return True   # cannot decide: do not demand a rejection
+            yrev = x.consume_transpose().transpose(tuple(range(x.ndim))[::-1])
+            if not fits(yrev):
+                must_reject("lazy-transpose-vs-meta", lambda: yrev.to_dict(level=0, meta=meta))
+            else:
+                ctx.count("reject:lazy-transpose-vs-meta:premise-not-met")
     del nat_legs
     return n_rej
 
